@@ -51,6 +51,22 @@ THEOREMS = [
     "Scenic.C20.dump_load_roundtrip",
     "Scenic.C20.second_load_uses_cache",
     "Scenic.C20.options_preimage_injective",
+    "Scenic.C20.path_map_is_core",
+    "Scenic.C20.path_noext_prefers_map",
+    "Scenic.C20.path_noext_only_cache",
+    "Scenic.C20.path_errors",
+    "Scenic.C20.path_pickled_direct",
+    "Scenic.C20.direction_of_unique_lane",
+    "Scenic.C20.nominal_in_intersection",
+    "Scenic.C20.found_section_owned",
+    "Scenic.C20.found_group_owned",
+    "Scenic.C20.elem_lookup_sound",
+    "Scenic.C20.adj_left_reciprocal",
+    "Scenic.C20.adj_right_reciprocal",
+    "Scenic.C20.adj_faster_slower",
+    "Scenic.C20.adj_slower_faster",
+    "Scenic.C20.adj_adjacent_symmetric",
+    "Scenic.C20.sectionOrder_spec",
     # the same, instantiated on the data regenerated from /repo (Gen/Roads.lean)
     "Scenic.C20.gen_findPointIn",
     "Scenic.C20.gen_lookup_sound",
@@ -60,8 +76,14 @@ THEOREMS = [
     "Scenic.C20.gen_cache_never_raises",
     "Scenic.C20.gen_dump_load_roundtrip",
     "Scenic.C20.gen_options_injective",
+    "Scenic.C20.gen_direction_of_unique_lane",
+    "Scenic.C20.gen_found_section_owned",
+    "Scenic.C20.gen_found_group_owned",
+    "Scenic.C20.gen_adj_reciprocal",
+    "Scenic.C20.gen_path",
 ]
-SIDE = ["Scenic.C20.gen_passes", "Scenic.C20.gen_cache_wf", "Scenic.C20.gen_lookups", "Scenic.C20.gen_hash_wf"]
+SIDE = ["Scenic.C20.gen_passes", "Scenic.C20.gen_cache_wf", "Scenic.C20.gen_lookups", "Scenic.C20.gen_hash_wf",
+        "Scenic.C20.gen_elem_lookups", "Scenic.C20.gen_heading_chain", "Scenic.C20.gen_path_wf", "Scenic.C20.gen_adj"]
 
 ROADS = "src/scenic/domains/driving/roads.py"
 XODR = "src/scenic/formats/opendrive/xodr_parser.py"
@@ -560,11 +582,173 @@ def real_lookup(n, name, x, y):
     return None if e is None else e
 
 
+ELEM_LOOKUPS = ["Road.sectionAt", "Road.laneAt", "Road.laneGroupAt", "LaneGroup.laneAt", "Lane.sectionAt",
+                "RoadSection.laneAt", "Road.laneSectionAt"]
+
+
+def real_elem_lookups(n, idx, x, y):
+    """the `…At` methods of the elements the network-level lookups return at this point"""
+    p = (x, y)
+    ix = lambda e: None if e is None else idx.get(id(e), -1)
+    road, group, lane = n.roadAt(p), n.laneGroupAt(p), n.laneAt(p)
+    rsec = road.sectionAt(p) if road is not None else None
+    out = {
+        "Road.sectionAt": ix(rsec),
+        "Road.laneAt": ix(road.laneAt(p)) if road is not None else None,
+        "Road.laneGroupAt": ix(road.laneGroupAt(p)) if road is not None else None,
+        "LaneGroup.laneAt": ix(group.laneAt(p)) if group is not None else None,
+        "Lane.sectionAt": ix(lane.sectionAt(p)) if lane is not None else None,
+        "RoadSection.laneAt": ix(rsec.laneAt(p)) if rsec is not None else None,
+        "Road.laneSectionAt": ix(road.laneSectionAt(p)) if road is not None else None,
+    }
+    return out
+
+
+def real_directions(n, x, y):
+    roads = R()
+    v = roads.Vector(x, y)
+    rd = n.roadDirection[v]
+    rd = float(rd.yaw) if hasattr(rd, "yaw") else float(rd)
+    return {"rd": rd, "nd": [float(o.yaw) for o in n.nominalDirectionsAt(v)]}
+
+
+def run_driver_exe(exe, lines):
+    import subprocess
+    p = subprocess.run([exe], input="\n".join(lines) + "\n", capture_output=True, text=True, timeout=3000)
+    if p.returncode != 0:
+        raise RuntimeError(f"Lean driver failed rc={p.returncode}: {p.stderr[-300:]}")
+    out = p.stdout.split("\n")
+    if out and out[-1] == "":
+        out.pop()
+    if len(out) != len(lines):
+        raise RuntimeError(f"Lean driver returned {len(out)} lines for {len(lines)}")
+    return out
+
+
+def model_phase(job, n, geo, toks, qpoints, cl, H, issue):
+    import shapely
+    roads = R()
+    exe = job.get("driver")
+    pts = [q for q in qpoints if not q["und"] and "real_elem" in q]
+    if not exe or not os.path.exists(exe) or not pts:
+        return
+    tol = geo.tol
+    line = f"C20 query2 {'1' if tol > 0 else '0'} " + " ".join(toks) + " Q " + \
+        " ".join((",".join(map(str, q["exact"])) or "-") + "/" + (",".join(map(str, q["near"])) or "-") for q in pts)
+    answers = run_driver_exe(exe, [line])[0].split(" ")
+    if len(answers) != len(pts):
+        raise RuntimeError(f"driver answered {len(answers)} points for {len(pts)}")
+    EPS = 1e-6
+    nm = lambda i: None if i is None else (geo.elems[i - 1].uid if 0 < i <= len(geo.elems) else f"#{i}")
+
+    def tangents_of(src, x, y):
+        """headings admissible for one model source: e<i> = nearest segment(s) of that element's centreline,
+        c<I> = the same for the connecting lane(s) of I's maneuvers closest to the point"""
+        if src.startswith("e"):
+            e = geo.elems[int(src[1:]) - 1]
+            return nearest_tangents(cl(e), x, y)[0], [e.uid]
+        I = geo.elems[int(src[1:]) - 1]
+        pt = shapely.Point(x, y)
+        ds = [(float(shapely.distance(m.connectingLane.polygons, pt)), m.connectingLane) for m in I.maneuvers]
+        if not ds:
+            return [], []
+        dmin = min(d for d, _ in ds)
+        cands = []
+        for d, l in ds:
+            if d <= dmin + 1e-9 and not any(l is c for c in cands):
+                cands.append(l)
+        out = []
+        for l in cands:
+            out += nearest_tangents(cl(l), x, y)[0]
+        return out, [l.uid for l in cands]
+
+    for q, a in zip(pts, answers):
+        x, y = q["p"]
+        net, elems, rd, nd = a.split("|")
+        q["model"] = net
+        # element-level lookups
+        for name, mv in zip(ELEM_LOOKUPS, elems.split(",")):
+            mv = None if mv == "-" else int(mv)
+            rv = q["real_elem"].get(name)
+            H("elem_lookup", f"{name}:{'none' if rv is None else 'exact' if rv in q['exact'] else 'tolerant'}")
+            if mv != rv:
+                issue(f"lookup:{name}:disagrees-with-spec",
+                      f"{name} at ({x!r}, {y!r}) (owner = what the network-level lookup returns) gave {nm(rv)}; the first match of the "
+                      f"list it searches is {nm(mv)} (contain the point: {[nm(i) for i in q['exact']]}; within tolerance: "
+                      f"{[nm(i) for i in q['near']]})", {"point": [x, y], "lookup": name, "corr": f"findPointIn model vs {name}"})
+        # which centreline supplies the direction
+        real_rd, real_nd = q["dirs"]["rd"], q["dirs"]["nd"]
+        if rd == "-":
+            ok = real_rd == 0
+            H("direction_source", "roadDirection:outside" if ok else "roadDirection:MISMATCH")
+            if not ok:
+                issue("direction:source:roadDirection", f"roadDirection at ({x!r}, {y!r}) is {math.degrees(real_rd):.4f} deg although no "
+                      "intersection, road or shoulder is within tolerance (documented value there: 0)",
+                      {"point": [x, y], "corr": "direction-source model vs Network.roadDirection"})
+        else:
+            tans, who = tangents_of(rd, x, y)
+            ok = any(ang_diff(real_rd, t) <= EPS for t in tans)
+            H("direction_source", f"roadDirection:{'closest-connecting-lane' if rd.startswith('c') else kind_of(roads, geo.elems[int(rd[1:]) - 1])}"
+              if ok else "roadDirection:MISMATCH")
+            if not ok:
+                issue("direction:source:roadDirection",
+                      f"roadDirection at ({x!r}, {y!r}) is {math.degrees(real_rd):.4f} deg; the lookup chain of the model gives the centreline of "
+                      f"{who} whose nearest segment runs at {[round(math.degrees(t), 4) for t in tans]} deg",
+                      {"point": [x, y], "corr": "direction-source model vs Network.roadDirection"})
+        srcs = [] if nd == "-" else nd.split(";")
+        ok = len(srcs) == len(real_nd)
+        detail = []
+        if ok:
+            for s_, d_ in zip(srcs, real_nd):
+                tans, who = tangents_of(s_, x, y)
+                detail.append((who, [round(math.degrees(t), 4) for t in tans]))
+                if not any(ang_diff(d_, t) <= EPS for t in tans):
+                    ok = False
+        H("direction_source", f"nominalDirectionsAt:{len(srcs)}" if ok else "nominalDirectionsAt:MISMATCH")
+        if not ok:
+            issue("direction:source:nominalDirectionsAt",
+                  f"nominalDirectionsAt({x!r}, {y!r}) = {[round(math.degrees(d), 4) for d in real_nd]} deg; the model gives {len(srcs)} "
+                  f"direction(s) from the centrelines {detail or srcs}",
+                  {"point": [x, y], "corr": "direction-source model vs Network.nominalDirectionsAt"})
+
+
+def collect_adjacency(n):
+    """{ids: [[where, order, {id: 'left/right/faster/slower/adjacent'}], …]} over the distinct lane-id sets of the road
+    sections (each distinct observation once), in the driver's output format"""
+    roads = R()
+    out = {}
+    for road in n.allRoads:
+        for rs in road.sections:
+            d = rs.lanesByOpenDriveID
+            ids = list(d)
+            key = ",".join(map(str, ids))
+
+            def oid(x, d=d):
+                if x is None:
+                    return "-"
+                if not isinstance(x, roads.LaneSection) or d.get(x.openDriveID) is not x:
+                    return "foreign"
+                return str(x.openDriveID)
+            per = {}
+            for i, sct in d.items():
+                adj = ".".join(oid(a) for a in sct.adjacentLanes) or "-"
+                per[str(i)] = "/".join([oid(sct._laneToLeft), oid(sct._laneToRight), oid(sct._fasterLane), oid(sct._slowerLane), adj])
+                if sct.openDriveID != i or bool(sct.isForward) != (i < 0):
+                    per[str(i)] += f"!id={sct.openDriveID},fwd={sct.isForward}"
+            order = (",".join(oid(a) for a in rs.forwardLanes) or "-") + "|" + (",".join(oid(a) for a in rs.backwardLanes) or "-")
+            if rs.lanes != rs.forwardLanes + rs.backwardLanes:
+                order += "!lanes"
+            obs = out.setdefault(key, [])
+            if not any(o[1] == order and o[2] == per for o in obs):
+                obs.append([rs.uid, order, per])
+    return out
+
+
 def process_map(job):
     """Runs in a worker process.  job: dict(repo, rel, options, mutation, seed, npoints, scratch, depth)."""
     t0 = time.time()
     warnings.filterwarnings("ignore")
-    res = {"job": {k: job[k] for k in ("rel", "options", "mutation", "seed", "npoints")}, "status": "ok",
+    res = {"job": {k: job[k] for k in ("rel", "options", "mutation", "seed", "npoints", "depth")}, "status": "ok",
            "issues": [], "hist": {}, "cases": 0}
     hist = res["hist"]
 
@@ -657,6 +841,8 @@ def process_map(job):
         geo = Geo(n)
         idx = {id(e): i + 1 for i, e in enumerate(geo.elems)}
         pts = sample_points(n, rng, job["npoints"])
+        if job.get("points"):  # replay of one reported point
+            pts = [("replay", float(x), float(y)) for x, y in job["points"]]
         tol = float(n.tolerance)
         qpoints = []
         drivable = n.drivableRegion.polygons
@@ -696,7 +882,17 @@ def process_map(job):
                         issue("cache:lookup-differs", f"{name}({x!r}, {y!r}) = {u1} parsed but {u2} from the cache",
                               {"point": [x, y], "lookup": name})
             H("point_decided", "undecided-band" if und else "decided")
-            qpoints.append({"p": [x, y], "exact": exact, "near": near, "und": und, "real": real, "cat": cat})
+            q = {"p": [x, y], "exact": exact, "near": near, "und": und, "real": real, "cat": cat}
+            if not und:
+                try:
+                    q["real_elem"] = real_elem_lookups(n, idx, x, y)
+                    q["dirs"] = real_directions(n, x, y)
+                except BaseException as e:  # noqa
+                    if isinstance(e, KeyboardInterrupt):
+                        raise
+                    issue(f"lookup:raised:{type(e).__name__}", f"element-level lookup / direction at ({x!r}, {y!r}) raised "
+                          f"{type(e).__name__}: {str(e)[:100]}", {"point": [x, y]})
+            qpoints.append(q)
             # direct: containment within tolerance of whatever is returned
             for name in LOOKUPS:
                 r = real[name]
@@ -738,6 +934,11 @@ def process_map(job):
             # direct: traffic direction tangent to the centreline of the lane
             direction_check(n, geo, x, y, exact, near, und, inter_polys, laneset, conn_lane_ids, cl, H, issue)
         res["points"] = qpoints
+        # ---- the Lean model on the same containment facts: network-level lookups (compared by the parent), element-level
+        # lookups and the centreline that supplies the direction (compared here, where the geometry is at hand)
+        model_phase(job, n, geo, toks, qpoints, cl, H, issue)
+        # ---- adjacency / lane order of every road section, to be compared with the Lean construction by the parent
+        res["adj"] = collect_adjacency(n)
         # ---- centreline back-steps: deterministic search for a point where the reported direction is reversed
         nb = 0
         for lane in n.lanes:
@@ -1055,7 +1256,8 @@ def run_jobs(ctx, jobs):
 
 
 def replay_of(job, **extra):
-    d = {"rel": job["rel"], "options": job["options"], "mutation": job["mutation"], "seed": job["seed"]}
+    d = {"rel": job["rel"], "options": job["options"], "mutation": job["mutation"], "seed": job["seed"],
+         "npoints": job.get("npoints", 0), "depth": job.get("depth", 0)}
     d.update(extra)
     return d
 
@@ -1064,6 +1266,7 @@ def evaluate(ctx, results, labels):
     """feed the exported tables / candidate sets to the Lean driver and compare; -> found a failing input"""
     found = False
     lines, meta = [], []
+    adj_seen = {}
     for r in results:
         if r["status"] != "ok":
             continue
@@ -1072,12 +1275,17 @@ def evaluate(ctx, results, labels):
         if isinstance(r.get("tokens_cached"), list):
             lines.append("C20 links " + " ".join(r["tokens_cached"]))
             meta.append(("links", r, "cached"))
-        pts = [q for q in r.get("points", []) if not q["und"]]
+        pts = [q for q in r.get("points", []) if not q["und"] and "model" in q]
         if pts:
-            tp = "1" if r["tolerance"] > 0 else "0"
-            q = " ".join((",".join(map(str, p["exact"])) or "-") + "/" + (",".join(map(str, p["near"])) or "-") for p in pts)
-            lines.append(f"C20 query {tp} " + " ".join(r["tokens"]) + " Q " + q)
+            lines.append("C20 rules")  # placeholder line: the model answers were computed in the worker (query2)
             meta.append(("query", r, pts))
+        for ids, obs in r.get("adj", {}).items():
+            if ids not in adj_seen:
+                adj_seen[ids] = len(lines)
+                lines.append(f"C20 adj 1 {ids or '-'}")
+                meta.append(("adjmodel", r, ids))
+                lines.append(f"C20 order {ids or '-'}")
+                meta.append(("ordermodel", r, ids))
     # negative controls on a few tables
     negs = []
     oks = [r for r in results if r["status"] == "ok" and len(r["tokens"]) > 5]
@@ -1087,6 +1295,14 @@ def evaluate(ctx, results, labels):
             meta.append(("neg", r, name))
     out = ctx.driver(lines) if lines else []
     lookups = ctx.driver(["C20 lookups"])[0].split()
+    if ctx.driver(["C20 elemlookups"])[0].split() != ELEM_LOOKUPS:
+        raise Infra("the driver's element-lookup table is not the one the harness compares")
+    adj_model, order_model = {}, {}
+    for (kind, r, arg), o in zip(meta, out):
+        if kind == "adjmodel":
+            adj_model[arg] = dict(t.split(":", 1) for t in o.split(" ") if ":" in t)
+        elif kind == "ordermodel":
+            order_model[arg] = o
     for (kind, r, arg), o in zip(meta, out):
         job = r["job"]
         jk = job_key(job)
@@ -1107,18 +1323,16 @@ def evaluate(ctx, results, labels):
                     ws = {why.get(f"{i}:{f}") for i in elems} - {None}
                     if ws:
                         disc = ":" + "+".join(sorted(ws))
-                if label.startswith("link intersection roads") and names and all(nm == "intersection0" for nm in names):
-                    disc = ":junction-id-0"
                 key = f"links:{label}{disc}" + ("" if arg == "parsed" else ":cached")
                 if ctx.violation(key, f"{jk} ({arg}): link rule {label} fails at {names}",
                                  replay_of(job, kind="links", rule=rule, label=label, which=arg)):
                     found = True
+        elif kind in ("adjmodel", "ordermodel"):
+            continue
         elif kind == "query":
             pts = arg
-            answers = o.split(" ")
-            if len(answers) != len(pts):
-                raise Infra(f"driver answered {len(answers)} points for {len(pts)} ({o[:80]})")
-            for p, a in zip(pts, answers):
+            for p in pts:
+                a = p["model"]
                 model = dict(zip(lookups, a.split(",")))
                 ctx.case(("pt", jk, p["p"]), nontrivial=bool(p["exact"] or p["near"]))
                 for name in LOOKUPS:
@@ -1165,9 +1379,38 @@ def evaluate(ctx, results, labels):
             continue
         ctx.hist("build", "ok" + (":mutated" if job["mutation"] else ""))
         for iss in r["issues"]:
+            if iss["extra"].get("corr"):
+                ctx.broken("correspondence", iss["extra"]["corr"], f"{jk}: {iss['what']}")
             if ctx.violation(iss["key"], f"{jk}: {iss['what']}", replay_of(job, kind="direct", key=iss["key"], **iss["extra"])):
                 found = True
+        # adjacency / lane order of every road section vs the Lean construction (proved reciprocal for every id set)
+        for ids, obs in r.get("adj", {}).items():
+            for where, order, per in obs:
+                ctx.case(("adj", ids, order, sorted(per.items())), nontrivial=len(per) > 1)
+                ctx.hist("adjacency_section", f"{len(per)}-lanes")
+        for key, corr, what, ids, where in adjacency_issues(r.get("adj", {}), adj_model, order_model):
+            ctx.broken("correspondence", corr, f"{jk}: {what}")
+            if ctx.violation(key, f"{jk}: {what}", replay_of(job, kind="adj", ids=ids, section=where)):
+                found = True
     return found
+
+
+def adjacency_issues(adj, adj_model, order_model):
+    out = []
+    for ids, obs in adj.items():
+        for where, order, per in obs:
+            bad = [f"lane {i}: real {v}, construction {adj_model.get(ids, {}).get(i)}" for i, v in per.items()
+                   if adj_model.get(ids, {}).get(i) != v]
+            if bad:
+                out.append(("links:adjacency-construction", "adjacency construction vs toScenicRoad",
+                            f"road section {where} (lane ids {ids}): _laneToLeft/_laneToRight/_fasterLane/_slowerLane/adjacentLanes "
+                            f"(as left/right/faster/slower/adjacent ids) differ from the construction the reciprocity theorems are "
+                            f"proved for: {bad[:4]}", ids, where))
+            if order_model.get(ids) != order:
+                out.append(("links:section-lane-order", "lane order of RoadSection",
+                            f"road section {where} (lane ids {ids}): forwardLanes|backwardLanes = {order}, documented order "
+                            f"(rightmost first, negative ids forward) = {order_model.get(ids)}", ids, where))
+    return out
 
 
 # ------------------------------------------------------------------------------------------ cache logic
@@ -1324,6 +1567,77 @@ def corr_cache(ctx, small_map):
                               "cache": None if cache is None else cache[:76].hex(), "payload_ok": cache is not None and cache[76:] == payload,
                               "map": small_map}):
                 found = True
+
+    # ---- the front of fromFile: spelling of the path (no extension / .xodr / .snet / unknown) x which files exist
+    pdir = os.path.join(work, "pathcases")
+    os.makedirs(pdir, exist_ok=True)
+
+    def run_frompath(ext, use_cache, map_bytes, cache_bytes, kwargs):
+        for fn in os.listdir(pdir):
+            os.remove(os.path.join(pdir, fn))
+        if map_bytes is not None:
+            with open(os.path.join(pdir, "pm.xodr"), "wb") as f:
+                f.write(map_bytes)
+        if cache_bytes is not None:
+            with open(os.path.join(pdir, "pm" + roads.Network.pickledExt), "wb") as f:
+                f.write(cache_bytes)
+        arg = os.path.join(pdir, "pm" + {"none": "", "map": ".xodr", "pickled": roads.Network.pickledExt, "unknown": ".osm"}[ext])
+        del calls[:]
+        roads.Network.fromOpenDrive = classmethod(counting)
+        try:
+            roads.Network.fromFile(arg, useCache=use_cache, writeCache=False, **kwargs)
+            return "parsed" if calls else "cached"
+        except pickle.UnpicklingError:
+            return "raised:unpickling"
+        except roads.Network.DigestMismatchError:
+            return "raised:mismatch"
+        except FileNotFoundError:
+            return "raised:notfound"
+        except ValueError:
+            return "raised:valueerror"
+        except BaseException as e:  # noqa
+            ctx.hist("frompath_other_exception", type(e).__name__)
+            return "raised:other"
+        finally:
+            roads.Network.fromOpenDrive = orig_od
+
+    pcases = []
+    kw0, kw1 = {}, {"tolerance": 0.07}
+    for ext in ("none", "map", "pickled", "unknown"):
+        for mapb in (None, data, other_map):
+            for use_cache in (True, False):
+                for kw in (kw0, kw1):
+                    m = mapb if mapb is not None else data
+                    for cache in (None, cache_for(m, kw), cache_for(m, kw1 if kw is kw0 else kw0), cache_for(other_map if m is data else data, kw),
+                                  cache_for(m, kw, version=cur + 1), cache_for(m, kw, pay=payload[: len(payload) // 2]),
+                                  cache_for(m, kw)[:40], b""):
+                        pcases.append((ext, use_cache, mapb, cache, kw))
+    rng.shuffle(pcases)
+    for ext, use_cache, mapb, cache, kw in pcases[: B(ctx, 120, 768)]:
+        real = run_frompath(ext, use_cache, mapb, cache, kw)
+        o = deterministicHash(kw, digest_size=8)
+        md = "none" if mapb is None else hashlib.blake2b(mapb).digest().hex()
+        if cache is None:
+            ch, pay = "none", "ok"
+        else:
+            ch = cache[:76].hex() or "-"
+            pay = "ok" if cache[76:] == payload else "bad"
+        lines.append(f"C20 frompath {ext} {'1' if use_cache else '0'} {md} {ch} {pay} {o.hex()}")
+        py.append(real)
+        ctx.hist("frompath_outcome", f"{ext}:{real}")
+        # direct: whenever the map file exists and is the file named (or found for a path without extension), a cache whose
+        # keys do not all match is never used
+        if ext in ("none", "map") and mapb is not None:
+            should = use_cache and cache is not None and len(cache) >= 76 and cache[:4] == struct.pack("<I", cur) \
+                and cache[4:68] == hashlib.blake2b(mapb).digest() and cache[68:76] == o and cache[76:] == payload
+            if (real == "cached") != bool(should) or real.startswith("raised"):
+                if ctx.violation(f"cache:path:{'stale-used' if real == 'cached' else 'raised' if real.startswith('raised') else 'fresh-ignored'}",
+                                 f"fromFile(<path with {'no' if ext == 'none' else 'the map'} extension>, useCache={use_cache}, options={kw}) with a cache whose "
+                                 f"keys {'match' if should else 'do not match'} -> {real}",
+                                 {"kind": "path", "ext": ext, "use_cache": use_cache, "options": kw, "map": small_map,
+                                  "map_state": None if mapb is None else ("edited" if mapb is other_map else "original"),
+                                  "cache": None if cache is None else cache[:76].hex(), "payload_ok": cache is not None and cache[76:] == payload}):
+                    found = True
     with open(path, "wb") as f:
         f.write(data)
     # ---- header written by dumpPickle
@@ -1466,18 +1780,22 @@ def run(ctx):
         data = troads.extract()
         ctx.gen("Roads", troads.to_lean(data))
     except TemplateMismatch as e:
+        ctx.gen("Roads", troads.to_lean(troads.PINNED))  # never leave the data of an earlier run (e.g. of a mutant) in place
         ctx.escalated.append(f"translator tie lost (roads): {e}")
         ctx.notes.append(f"translator tie lost for roads.py: {e}; relying on the correspondence run at thorough budget")
     pr = ctx.prove(THEOREMS, side_conditions=SIDE)
     if ctx.tier == "thorough" and pr.build_ok:
         ctx.leanchecker(["ScenicModel.Props.C20", "ScenicModel.Props.C20Links", "ScenicModel.Props.C20Lookup",
-                         "ScenicModel.Props.C20Cache"])
+                         "ScenicModel.Props.C20Cache", "ScenicModel.Props.C20Direction", "ScenicModel.Props.C20Adjacency"])
     found = False
     jobs, used, skipped = make_jobs(ctx)
     ctx.extra["maps_used"] = used
     ctx.extra["maps_skipped_empty"] = skipped
     ctx.notes.append(f"maps used: {len(used)}; skipped because empty in this sandbox: {skipped}; "
                      "the quick tier leaves all but one of the maps above 1 MB to the thorough tier")
+    exe = os.path.join(ctx.root, "lean", ".lake", "build", "bin", "drv_c20")
+    for j in jobs:
+        j["driver"] = exe if (pr.build_ok or os.path.exists(exe)) else None
     results = run_jobs(ctx, jobs)
     ctx.extra["jobs"] = len(jobs)
     ctx.extra["slowest_jobs"] = [[job_key(r["job"]), round(r.get("wall", 0), 1)] for r in sorted(results, key=lambda r: -r.get("wall", 0))[:5]]
@@ -1504,36 +1822,98 @@ def replay(ctx, path):
     body = json.load(open(path))
     rep = body.get("replay", body)
     kind = rep.get("kind")
-    if kind in ("links", "lookup", "direct", "build"):
+    if kind in ("links", "lookup", "direct", "build", "adj"):
+        ctx.driver(["C20 rules"])  # builds the driver if it is missing
+        exe = os.path.join(ctx.root, "lean", ".lake", "build", "bin", "drv_c20")
         job = dict(repo=ctx.repo, rel=rep["rel"], options=rep["options"], mutation=rep.get("mutation"), seed=rep.get("seed", 0),
-                   npoints=0, scratch=os.path.join(ctx.tmp, "replay"), depth=10 ** 9 if kind == "direct" and "child" in rep else 0)
-        if kind == "direct" and "point" not in rep and "child" not in rep:
-            job["npoints"] = 300
+                   npoints=0, scratch=os.path.join(ctx.tmp, "replay"), depth=0, driver=exe)
+        if "point" in rep:
+            job["points"] = [rep["point"]]
+        elif kind == "direct":  # same seed, same budgets -> the same sample / the same child-parent pairs as in the reporting run
+            job["npoints"], job["depth"] = rep.get("npoints", 300), rep.get("depth", 10 ** 9)
         r = process_map(job)
         print("status:", r["status"], r.get("error", ""))
+        if kind == "build":
+            return 1 if r["status"] == "build-failed" else 0
         if r["status"] != "ok":
-            return 1 if kind == "build" else 0
-        for iss in r["issues"]:
-            print("issue:", iss["key"], iss["what"])
+            return 0
         if kind == "links":
             toks = r["tokens"] if rep.get("which") != "cached" or not isinstance(r.get("tokens_cached"), list) else r["tokens_cached"]
             out = ctx.driver(["C20 links " + " ".join(toks)])[0]
             labels = rule_labels(ctx)
+            hit = False
             for rule, elems in links_verdict(out) or []:
                 print("rule", rule, labels[rule], "fails at", [r["names"][i] for i in elems if i < len(r["names"])])
-            return 1 if out.startswith("fail") else 0
+                hit |= labels[rule] == rep.get("label")
+            return 1 if hit else 0
+        if kind == "adj":
+            adj = r.get("adj", {})
+            keys = list(adj)
+            outs = ctx.driver([f"C20 adj 1 {k or '-'}" for k in keys] + [f"C20 order {k or '-'}" for k in keys])
+            adj_model = {k: dict(t.split(":", 1) for t in o.split(" ") if ":" in t) for k, o in zip(keys, outs[:len(keys)])}
+            order_model = dict(zip(keys, outs[len(keys):]))
+            iss = adjacency_issues(adj, adj_model, order_model)
+            for key, corr, what, ids, where in iss[:10]:
+                print("issue:", key, what)
+            return 1 if iss else 0
         if "point" in rep:
             roads = R()
             x, y = rep["point"]
-            path2 = os.path.join(job["scratch"], os.path.basename(rep["rel"]))
-            n = roads.Network.fromFile(path2, useCache=False, writeCache=False, **rep["options"])
+            q = r["points"][0] if r.get("points") else {}
+            nm = lambda i: None if i is None else (r["names"][i] if 0 <= i < len(r["names"]) else f"#{i}")
+            print("contain the point:", [nm(i) for i in q.get("exact", [])], "within tolerance:", [nm(i) for i in q.get("near", [])],
+                  "undecided band:", q.get("und"))
+            lookups = ctx.driver(["C20 lookups"])[0].split()
+            model = dict(zip(lookups, q["model"].split(","))) if "model" in q else {}
             for name in LOOKUPS:
-                e = getattr(n, name)((x, y))
-                print(name, "->", None if e is None else (e.uid, float(e.polygons.distance(__import__("shapely").Point(x, y)))))
-            print("nominalDirectionsAt ->", [math.degrees(float(o.yaw)) for o in n.nominalDirectionsAt(roads.Vector(x, y))])
-            rd = n.roadDirection[roads.Vector(x, y)]
-            print("roadDirection ->", math.degrees(float(rd.yaw) if hasattr(rd, "yaw") else float(rd)))
-        return 1 if r["issues"] else 0
+                mv = model.get(name)
+                print(f"{name} -> real {nm(q['real'][name])}; model {nm(None if mv in (None, '-') else int(mv))}")
+            print("directions:", {k: (math.degrees(v) if isinstance(v, float) else [math.degrees(a) for a in v]) for k, v in q.get("dirs", {}).items()})
+            if kind == "lookup":
+                mv = model.get(rep["lookup"])
+                if mv is None:
+                    return 0
+                return 1 if (None if mv == "-" else int(mv)) != q["real"][rep["lookup"]] else 0
+        hits = [i for i in r["issues"] if i["key"] == rep.get("key")]
+        for iss in hits:
+            print("issue:", iss["key"], iss["what"])
+        return 1 if hits else 0
+    if kind == "path":
+        roads = R()
+        from scenic.core.serialization import deterministicHash
+        work = os.path.join(ctx.tmp, "replay-path")
+        os.makedirs(work, exist_ok=True)
+        src = os.path.join(work, "src.xodr")
+        shutil.copyfile(os.path.join(ctx.repo, rep["map"]), src)
+        net = roads.Network.fromFile(src, useCache=False, writeCache=True)
+        payload = open(os.path.join(work, "src" + roads.Network.pickledExt), "rb").read()[76:]
+        data = open(src, "rb").read()
+        mapb = None if rep["map_state"] is None else (data + b"\n<!-- edited -->\n" if rep["map_state"] == "edited" else data)
+        pdir = os.path.join(work, "case")
+        os.makedirs(pdir, exist_ok=True)
+        if mapb is not None:
+            open(os.path.join(pdir, "pm.xodr"), "wb").write(mapb)
+        if rep["cache"] is not None:
+            open(os.path.join(pdir, "pm" + roads.Network.pickledExt), "wb").write(
+                bytes.fromhex(rep["cache"]) + (payload if rep["payload_ok"] else b"junk"))
+        arg = os.path.join(pdir, "pm" + {"none": "", "map": ".xodr", "pickled": roads.Network.pickledExt, "unknown": ".osm"}[rep["ext"]])
+        calls = []
+        orig_od = roads.Network.__dict__["fromOpenDrive"]
+        roads.Network.fromOpenDrive = classmethod(lambda cls, *a, **k: (calls.append(1), net)[1])
+        try:
+            roads.Network.fromFile(arg, useCache=rep["use_cache"], writeCache=False, **rep["options"])
+            real = "parsed" if calls else "cached"
+        except BaseException as e:  # noqa
+            real = "raised " + type(e).__name__
+        finally:
+            roads.Network.fromOpenDrive = orig_od
+        cache = None if rep["cache"] is None else bytes.fromhex(rep["cache"])
+        cur = roads.Network._currentFormatVersion()
+        should = bool(rep["use_cache"] and mapb is not None and cache is not None and len(cache) >= 76 and rep["payload_ok"]
+                      and cache[:4] == struct.pack("<I", cur) and cache[4:68] == hashlib.blake2b(mapb).digest()
+                      and cache[68:76] == deterministicHash(rep["options"], digest_size=8))
+        print(f"fromFile(<{rep['ext']} path>, useCache={rep['use_cache']}, options={rep['options']}) -> {real}; cache keys match: {should}")
+        return 1 if (real == "cached") != should or real.startswith("raised") else 0
     if kind == "cache":
         roads = R()
         from scenic.core.serialization import deterministicHash
